@@ -21,6 +21,23 @@ pub fn has_comment_children(node: &SyntaxNode) -> bool {
     node.children().any(is_comment_node)
 }
 
+/// Whether a line comment occurs in the node outside of any nested parentheses, brackets or braces.
+/// It forces a line break at a place where only a continued code mode tolerates one.
+pub fn has_free_line_comment(node: &SyntaxNode) -> bool {
+    node.children().any(|child| match child.kind() {
+        SyntaxKind::LineComment => true,
+        SyntaxKind::Parenthesized
+        | SyntaxKind::Array
+        | SyntaxKind::Dict
+        | SyntaxKind::Destructuring
+        | SyntaxKind::Args
+        | SyntaxKind::Params
+        | SyntaxKind::CodeBlock
+        | SyntaxKind::ContentBlock => false,
+        _ => has_free_line_comment(child),
+    })
+}
+
 pub(super) fn indent_func_name(node: FuncCall<'_>) -> Option<&str> {
     node.callee()
         .to_untyped()
